@@ -198,8 +198,7 @@ func runC14(seed int64, n int, tier string, outDir string) (*Report, error) {
 			rep.Violate(Violation{Op: "IRIs.Contains", Input: []any{l, x}, Expected: fmt.Sprint(want), Observed: fmt.Sprint(got)})
 		}
 	}
-	p1, err := cw.Close()
-	if err != nil {
+	if err := rep.AddCases(cw); err != nil {
 		return nil, err
 	}
 
@@ -211,8 +210,7 @@ func runC14(seed int64, n int, tier string, outDir string) (*Report, error) {
 	for _, s := range junk {
 		cw2.Add("("+hx([]byte(s))+", "+hx([]byte(ap.VerifStripFragment(s)))+", "+hx([]byte(ap.VerifStripScheme(s)))+")", s)
 	}
-	p2, err := cw2.Close()
-	if err != nil {
+	if err := rep.AddCases(cw2); err != nil {
 		return nil, err
 	}
 
@@ -266,12 +264,9 @@ func runC14(seed int64, n int, tier string, outDir string) (*Report, error) {
 		cw3.Add("("+hx([]byte(s))+", Some ("+hx([]byte(u.Scheme))+", "+hx([]byte(u.Host))+", "+hx([]byte(u.Path))+", "+hx([]byte(u.RawQuery))+", "+hx([]byte(u.Fragment))+"), "+
 			hx([]byte(cleaned))+", ["+strings.Join(qv, "; ")+"])", s)
 	}
-	p3, err := cw3.Close()
-	if err != nil {
+	if err := rep.AddCases(cw3); err != nil {
 		return nil, err
 	}
-	rep.CaseFiles = []string{p1, p2, p3}
-	rep.CoqCases = cw.total + cw2.total + cw3.total
 	return rep, nil
 }
 
